@@ -5,7 +5,7 @@ determine_restart / limiter dependencies) whose *only* override is `get_local_er
 """
 
 from pySDC.core.convergence_controller import ConvergenceController
-from pySDC.implementations.convergence_controller_classes.adaptivity import Adaptivity
+from pySDC.implementations.convergence_controller_classes.adaptivity import Adaptivity, AdaptivityPolynomialError
 
 from vf.env import block
 
@@ -25,6 +25,27 @@ class ScriptedAdaptivity(Adaptivity):
             c = cur.ctx.choose(n, f'est b{cur.block} s{S.status.slot}', 1)
             cur.est[key] = EST_ALPHABET[c] * self.params.e_tol
         return cur.est[key]
+
+
+def _scripted_estimate(self, controller, S, **kwargs):
+    cur = block.CUR
+    if cur is None:
+        return type(self).__mro__[1].get_local_error_estimate(self, controller, S, **kwargs)
+    key = (cur.block, S.status.slot)
+    if key not in cur.est:
+        n = cur.cfg.get('est_n', len(EST_ALPHABET))
+        c = cur.ctx.choose(n, f'est b{cur.block} s{S.status.slot}', 1)
+        cur.est[key] = EST_ALPHABET[c] * self.params.e_tol
+    return cur.est[key]
+
+
+@block.register
+class ScriptedAdaptivityPolynomial(AdaptivityPolynomialError):
+    """The real AdaptivityPolynomialError (family 'adaptivity for converged collocation problems': restart decision only
+    once the collocation problem counts as converged, interpolation between restarts, real EstimatePolynomialError as
+    dependency) with only the number it reads as error estimate replaced by the explorer's answer."""
+
+    get_local_error_estimate = _scripted_estimate
 
 
 @block.register
@@ -50,8 +71,8 @@ class ScriptedRestart(ConvergenceController):
                 if cur.restart_req[key]:
                     cur.restart_iter = getattr(cur, 'restart_iter', {})
                     cur.restart_iter[key] = S.status.iter
-            if cur.restart_req[key]:
-                S.status.restart = True
+                    # raised once, in this check only: the flag has to survive on its own until the block ends
+                    S.status.restart = True
             return None
         if S.status.iter < S.params.maxiter:
             return None
